@@ -1035,6 +1035,9 @@ func planC09(tier string, seed int64) (*Plan, error) {
 			c := []string{core, gfm}[r%2]
 			jobs = append(jobs, job("H_c09_refs", "cfg", c, "ref", r, "ws", ws))
 		}
+		for _, pad := range []int{300, 1100, 4200} {
+			jobs = append(jobs, job("H_c09_refs", "cfg", core, "ref", r, "ws", " ", "pad", pad, "flipmask", ra.Intn(1<<20), "window", 1, "pos", pad+3+r))
+		}
 		// windows inside X with fixed label spelling flips still symbolic
 		xl := 24
 		step := 5
@@ -1051,7 +1054,7 @@ func planC09(tier string, seed int64) (*Plan, error) {
 		"alphabets":     fmt.Sprintf("A of length %d and B of length %d over the same alphabet; A of %d with B of 1 and A of 1 with B of %d over neighbouring alphabets (quick: a seeded third of them): %q", na, nb, na+1, na+1, alphas),
 		"corpus":        fmt.Sprintf("%d seeded (closed corpus document A, offset) pairs with one symbolic byte and a free 1-byte B; the same for B with a free 1-byte A; %d pairs of corpus documents with one symbolic byte in each", nwin, nwin/2),
 		"closed(A)":     "syntactic sufficient condition assumed by the solver: no ` ~ < [ CR in A; last non-blank line of A has no TAB and no run of 4 spaces. B: no [ and no CR",
-		"references":    "5 reference templates x 4 whitespace spellings inside labels x every per-letter case flip of every use of a label (symbolic bits); plus a 1-byte symbolic window (not ` ~ < : CR) at seeded offsets of X under a seeded case-flip mask",
+		"references":    "5 reference templates x 4 whitespace spellings inside labels x every per-letter case flip of every use of a label (symbolic bits); plus a 1-byte symbolic window (not ` ~ < : CR) at seeded offsets of X under a seeded case-flip mask; the same behind an unrelated paragraph of 300, 1100 and 4200 bytes",
 		"outside":       "semantically closed documents that do not meet the syntactic condition; longer A/B",
 	}
 	p.Rule = "three conversions per path (A, B, joined) / two (definitions on top, at the end)"
